@@ -44,6 +44,7 @@ def check(ctx):
     ctx.run(r15_7, g)
     ctx.run(r15_8, g)
     ctx.run(r15_9, g)
+    ctx.run(r15_10, g)
     ctx.not_decided += [
         "that all_components / find_component partition the nodes into the true connected components",
         "that biccs returns exactly the biconnected components and articulation points (algorithmic exactness; only the edge-stack discipline is decided)",
@@ -683,3 +684,35 @@ def r15_9(ctx, g):
             continue
         leavers = sorted(h.qualname for h in methods if not same_func(h, f) and any(isinstance(st, ast.Assign) and isinstance(st.targets[0], ast.Attribute) and st.targets[0].attr == "visited" and const_value(st.value, "?") is True for st in walk_own(h.node)) and not any(same_func(h, cf) for cf in callers))
         ctx.violated("R15.9", f.where(), f"{f.qualname} reads the traversal marks without clearing them first: marks left by an earlier traversal of the same graph object ({', '.join(leavers) or 'another traversal'}) hide those nodes, e.g. the components of the graph come out empty or incomplete", key_of(f, "reads-stale-marks"))
+
+
+
+def r15_10(ctx, g):
+    """biccs: a node is given a frame on the work stack in the same step in which it is discovered (marked visited and
+    numbered).  A discovery whose frame is pushed only under a further condition leaves the tree edge to that node on the
+    edge stack without the pop that closes its component: a dead-end tip is then merged into a neighbouring component."""
+    repo = ctx.repo
+    f = _nf(repo, repo.func("gaftools.gfa", "GFA.biccs", "R15.10"))
+    n = 0
+    for blk_owner in ast.walk(f.node):
+        for fld in ("body", "orelse"):
+            blk = getattr(blk_owner, fld, None)
+            if not isinstance(blk, list):
+                continue
+            marks = [st for st in blk if isinstance(st, ast.Expr) and isinstance(st.value, ast.Call) and isinstance(st.value.func, ast.Attribute) and st.value.func.attr == "add" and norm(st.value.func.value) == "visited"]
+            if not marks or isinstance(blk_owner, ast.For):
+                continue
+            new = norm(marks[0].value.args[0])
+            if not any(isinstance(st, ast.Assign) and norm(st.targets[0]) == f"discovery[{new}]" for st in blk):
+                continue  # the root is marked where the search starts, not discovered
+            n += 1
+            pushes_here = [st for st in blk if isinstance(st, ast.Expr) and isinstance(st.value, ast.Call) and isinstance(st.value.func, ast.Attribute) and st.value.func.attr == "append" and norm(st.value.func.value) == "stack"]
+            pushes_nested = [st for b_ in blk for st in ast.walk(b_) if isinstance(st, ast.Call) and isinstance(st.func, ast.Attribute) and st.func.attr == "append" and norm(st.func.value) == "stack"]
+            if pushes_here:
+                ctx.holds("R15.10", f.where(marks[0]), f"the discovered node `{new}` gets its frame on the work stack in the step that discovers it")
+            elif pushes_nested:
+                cond = next((norm(b_.test) for b_ in blk if isinstance(b_, ast.If) and any(x is pushes_nested[0] for x in ast.walk(b_))), "?")
+                ctx.violated("R15.10", f.where(marks[0]), f"the frame of a newly discovered node is pushed only if `{cond[:60]}`: for the others the tree edge stays on the edge stack and their component is never closed (a dead-end tip is swallowed by the neighbouring component or reported in none)", key_of(f, f"frame-conditional:{cond[:40]}"))
+            else:
+                raise AnalysisError("R15.10", f.where(marks[0]), "cannot find where a discovered node is pushed to the work stack")
+    ctx.require_count("R15.10", n, 1, f.where(), "discovery step of biccs (visited.add + discovery number)")
